@@ -86,6 +86,10 @@ pub struct Stats {
     caps: Mutex<Vec<String>>,
     extra: Mutex<Map<String, Value>>,
     pub exhaustive: Mutex<bool>,
+    /// in-engine wall-clock cap (seconds): past it, explorers stop generating cases and the run
+    /// reports the cap instead of calling itself exhaustive
+    pub wall_cap_s: f64,
+    cap_reported: std::sync::atomic::AtomicBool,
 }
 
 impl Stats {
@@ -108,7 +112,29 @@ impl Stats {
             caps: Mutex::new(Vec::new()),
             extra: Mutex::new(Map::new()),
             exhaustive: Mutex::new(true),
+            wall_cap_s: std::env::var("VERIF_WALL_CAP_S")
+                .ok()
+                .and_then(|v| v.parse().ok())
+                .unwrap_or(match tier {
+                    Tier::Quick => 600.0,
+                    Tier::Thorough => 3600.0,
+                }),
+            cap_reported: std::sync::atomic::AtomicBool::new(false),
         }
+    }
+    /// true once the wall-clock cap is exceeded (reported once as a cap hit)
+    pub fn past_cap(&self) -> bool {
+        if self.elapsed() > self.wall_cap_s {
+            if !self.cap_reported.swap(true, Ordering::Relaxed) {
+                self.cap(format!(
+                    "wall-clock cap of {} s reached after {} cases; the spaces listed before this point were covered completely, the current one only partly",
+                    self.wall_cap_s,
+                    self.states.load(Ordering::Relaxed)
+                ));
+            }
+            return true;
+        }
+        false
     }
     pub fn elapsed(&self) -> f64 {
         self.start.elapsed().as_secs_f64()
